@@ -89,9 +89,17 @@ def rule_exception_capture(chk, rid):
         chk.ob(rid, C, not later, "state.is_error = True is written after the last state.metadata.update(...)" if not later else
                "state.metadata.update(metadata) runs after state.is_error = True and overwrites it with the context's flag (False when "
                "only the state was marked, e.g. an EvaluationException raised by the command)", e.ast, ea.mod, key="flag-after-merge")
-    st = [n for n in cfg.nodes if n.kind == "stmt" and isinstance(n.ast, ast.Assign) and U(n.ast.targets[0]).replace('"', "'") == "metadata['status']"
-          and any(txt == "is_error" and pol for _, txt, pol, _ in dominating_literals(cfg, n.id))]
-    chk.ob(rid, C, bool(st), "the error edge writes status ERROR into the metadata", fn, ea.mod, key="error-edge-status")
+    on_err = lambda nid: any(txt == "is_error" and pol for _, txt, pol, _ in dominating_literals(cfg, nid))
+    stat = [n for n in cfg.nodes if n.kind == "stmt" and isinstance(n.ast, ast.Assign) and U(n.ast.targets[0]) == "self.status"]
+    err_stat = [n for n in stat if on_err(n.id) and "ERROR" in U(n.ast.value)]
+    md = [n.id for n in cfg.nodes if n.kind == "stmt" and isinstance(n.ast, ast.Assign) and U(n.ast.targets[0]).replace('"', "'") == "metadata['status']"
+          and U(n.ast.value) in ("self.status.value", "Status.ERROR.value")]
+    ok = bool(err_stat) and bool(md)
+    for s_ in err_stat:
+        rets_ = [r for r in cfg.returns() if cfg.can_reach(s_.id, r)]
+        ok = ok and bool(rets_) and all(cfg.must_pass(s_.id, r, md) for r in rets_)
+        ok = ok and not [x for x in stat if x.id != s_.id and cfg.can_reach(s_.id, x.id) and any(cfg.can_reach(x.id, m_) for m_ in md)]
+    chk.ob(rid, C, ok, "the error edge writes status ERROR into the metadata", fn, ea.mod, key="error-edge-status")
 
 
 def rule_position_and_query(chk, rid):
@@ -288,3 +296,5 @@ def run(chk):
     X.rule_sequence_remainder(chk, "C06.10")
     X.rule_error_kind_agreement(chk, "C06.11")
     X.rule_initial_state_plain(chk, "C06.12")
+    from .c01 import rule_default_filling
+    rule_default_filling(chk, "C06.13")
